@@ -733,10 +733,13 @@ func vfC10Run(t *testing.T, cs vfC10Case, out *vfC10Out, isKnown func(string) bo
 				if s.ByServer || cs.Uni {
 					issued := mark()
 					ownLeave := fmt.Sprintf("leave:%d", curTag.Load())
+					conn.Client.mu.RLock()
+					_, had := conn.Client.channels[ch] // subscribed or reserved by a subscribe in flight: a push will be sent
+					conn.Client.mu.RUnlock()
 					go func() {
 						conn.Client.Unsubscribe(ch)
 						m := mark()
-						if !closedNow() {
+						if had && !closedNow() {
 							srvUnsubDone = append(srvUnsubDone, m)
 							srvUnsubIssue = append(srvUnsubIssue, issued)
 						}
@@ -884,9 +887,8 @@ func vfC10Run(t *testing.T, cs vfC10Case, out *vfC10Out, isKnown func(string) bo
 					case p.Unsubscribe != nil:
 						it.kind = vfC10ItEnd
 						if subject && unsubPushes < len(srvUnsubDone) {
-							if srvUnsubDone[unsubPushes] != 0 {
-								it.enq = srvUnsubDone[unsubPushes]
-							}
+							// the push is enqueued when the channel is released, i.e. at the start of the unsubscribe
+							it.enq = srvUnsubIssue[unsubPushes]
 							it.issue = srvUnsubIssue[unsubPushes]
 						}
 						unsubPushes++
@@ -949,43 +951,7 @@ func vfC10Run(t *testing.T, cs vfC10Case, out *vfC10Out, isKnown func(string) bo
 			keyB = "C10:batched-offset0-publication-flushed-after-unsubscribe"
 			keyC = "C10:reply-without-queue-overtakes-queued-pushes"
 			keyD = "C10:own-join-push-races-unsubscribe-woken-by-subscribe"
-			keyE = "C10:unsubscribe-push-enqueued-after-channel-release-follows-resubscribe-reply"
 		)
-		// staleEnd: the anomaly at idx follows an unsubscribe push U whose server-side unsubscribe was issued BEFORE a
-		// start S that precedes U in the frames (S is a re-subscription accepted while that unsubscribe was still running).
-		staleEnd := func(items []vfC10Item, skip map[int]bool, idx int) int {
-			u := -1
-			for i := idx - 1; i >= 0; i-- {
-				if skip[i] || items[i].ch != items[idx].ch {
-					continue
-				}
-				if items[i].kind == vfC10ItEnd {
-					u = i
-					break
-				}
-				if items[i].kind == vfC10ItStart {
-					return -1
-				}
-			}
-			if u < 0 || items[u].issue == 0 {
-				return -1
-			}
-			for i := u - 1; i >= 0; i-- {
-				if skip[i] || items[i].ch != items[idx].ch {
-					continue
-				}
-				if items[i].kind == vfC10ItEnd {
-					return -1
-				}
-				if items[i].kind == vfC10ItStart {
-					if items[i].seq > items[u].issue {
-						return u
-					}
-					return -1
-				}
-			}
-			return -1
-		}
 		classifyAB := func(it vfC10Item) string {
 			pr := prods[it.prodKey]
 			if pr == nil || pr.kind != "pub" || pr.hist || it.off != 0 {
@@ -1055,10 +1021,6 @@ func vfC10Run(t *testing.T, cs vfC10Case, out *vfC10Out, isKnown func(string) bo
 						if ri < 0 {
 							break
 						}
-						if u := staleEnd(rep, rskip, ri); u >= 0 {
-							rskip[u] = true // separately classified (stale unsubscribe push); judged again after the repair
-							continue
-						}
 						if classifyAB(rep[ri]) == "" && !racedJoin[rep[ri].prodKey] {
 							clean = false
 							break
@@ -1074,16 +1036,6 @@ func vfC10Run(t *testing.T, cs vfC10Case, out *vfC10Out, isKnown func(string) bo
 						return "[" + keyC + "] " + where + "; frames: " + actual + "; in hand-over order: " + vfC10Render(rep)
 					}
 				}
-			}
-			// (after the ReplyWithoutQueue counterfactual: a queued unsubscribe push overtaken by a direct reply is that finding)
-			if u := staleEnd(cur, skip, idx); u >= 0 {
-				msg := fmt.Sprintf("%s: the preceding %s belongs to a server-side unsubscribe issued before the subscription that is now alive was started", where, cur[u].desc)
-				if isKnown(keyE) {
-					noteKnown(keyE, msg+"; frames: "+vfTrunc(actual, 300))
-					skip[u] = true
-					continue
-				}
-				return "[" + keyE + "] " + msg + "; frames: " + actual
 			}
 			return where + "; frames: " + actual
 		}
